@@ -44,7 +44,7 @@ ASSUMPTIONS = [
     "whether a caller arriving after expiry/eviction of an in-flight entry starts a new invocation is unspecified (either is accepted)",
     "gates stand for external events; below them the asyncio ready queue is FIFO and never permuted",
 ]
-MINIMUMS = {"shared_waiters_with_cancel": 300, "expiry_in_flight": 200, "eviction_in_flight": 200, "monitor:single-flight": 1000, "monitor:delivery": 3000, "shared_cancel_with_scoped_callers": 100, "set:schedules": 1500}
+MINIMUMS = {"shared_waiters_with_cancel": 300, "expiry_in_flight": 200, "eviction_in_flight": 200, "monitor:single-flight": 1000, "monitor:delivery": 3000, "shared_cancel_with_scoped_callers": 100, "callers_of_self_cancelled_invocations": 100, "set:schedules": 1500}
 JOBS = {"quick": 4, "thorough": 16}
 LEVEL_TEXT = (
     "For every configuration of 2-3 (thorough: 2-4) callers over 1-2 keys (cancellers, expiry, limit 1/2, value/exception outcomes) the gate-release orders are explored by "
@@ -92,7 +92,11 @@ def run_schedule(cfg: dict[str, Any], chooser: Chooser) -> dict[str, Any]:
                 except asyncio.CancelledError:
                     rec["cancel_seen"] = True
                     raise
-                if outcome == "raise" or (outcome == "mixed" and k % 2 == 1):
+                if (outcome == "cancel-first" and k == 0) or (outcome == "mixed-cancel" and k % 3 == 0):
+                    # the invocation itself ends cancelled (something it awaited was cancelled by its owner); no caller asked for it
+                    rec["result"] = ("cancelled", None)
+                    raise asyncio.CancelledError()
+                if outcome == "raise" or (outcome == "mixed" and k % 2 == 1) or (outcome == "mixed-cancel" and k % 3 == 1):
                     rec["result"] = ("raise", Boom(k))
                     raise rec["result"][1]
                 rec["result"] = ("value", ("result", k, object()))
@@ -291,10 +295,13 @@ def judge(R: Recorder, cfg: dict[str, Any], chooser: Chooser, log: dict[str, Any
         if res is None:
             bad = f"caller {i} has no result"
             continue
+        b = bound.get(i)
+        if res[0] == "cancelled" and b is not None and inv[b]["result"] is not None and inv[b]["result"][0] == "cancelled":
+            R.count("callers_of_self_cancelled_invocations")
+            continue  # the invocation it joined ended cancelled on its own: that is the outcome to deliver
         if res[0] == "cancelled":
             bad = f"caller {i} ended cancelled although nobody cancelled it while it was waiting"
             continue
-        b = bound.get(i)
         if b is None:
             bad = f"caller {i} got {res!r} but no invocation can be attributed to it"
             continue
@@ -332,13 +339,17 @@ def configs(tier: str):  # noqa: ANN201
     # eviction, re-insertion and partial expiry: four arrivals over two keys with limit 1, two partial clock advances
     for keys in (["A", "B", "A", "A"], ["A", "B", "A", "B"], ["A", "A", "B", "A"]):
         yield {"keys": keys, "cancels": [], "expire": True, "jump": False, "ticks": 2, "limit": 1, "outcome": "mixed"}
+        # an evicted, still running invocation that ends cancelled on its own must not disturb its successor
+        yield {"keys": keys, "cancels": [], "expire": False, "limit": 1, "outcome": "cancel-first"}
+        yield {"keys": keys, "cancels": [], "expire": True, "jump": True, "limit": 2, "outcome": "cancel-first"}
+    yield {"keys": ["A", "A", "A"], "cancels": [], "expire": True, "jump": True, "limit": 1, "outcome": "mixed-cancel"}
 
 
 def random_config(rng: random.Random) -> dict[str, Any]:
     n = 4
     keys = ["A"] + [rng.choice("AAB") for _ in range(n - 1)]
     cancels = sorted(rng.sample(range(n), rng.randint(0, 2)))
-    cfg = {"keys": keys, "cancels": cancels, "expire": rng.random() < 0.6, "limit": rng.choice([1, 2]), "outcome": rng.choice(["value", "raise", "mixed"])}
+    cfg = {"keys": keys, "cancels": cancels, "expire": rng.random() < 0.6, "limit": rng.choice([1, 2]), "outcome": rng.choice(["value", "raise", "mixed", "mixed", "cancel-first", "mixed-cancel"])}
     if rng.random() < 0.3:
         cfg["scoped"] = sorted(rng.sample(range(n), rng.randint(1, n)))
     if cfg["expire"]:
